@@ -285,3 +285,41 @@ def tensor_eq(a, b):
     if len(ea) != len(eb) or tuple(a.shape) != tuple(b.shape):
         return Rel(False, float("inf"), "shape %s vs %s" % (tuple(a.shape), tuple(b.shape)))
     return all_(*[eq(x, y) for x, y in zip(ea, eb)])
+
+
+def same(a, b, tol=None):
+    """Equality that also covers extended-real elements: equal special flags, and equal values where
+    finite (NaN is 'same' as NaN)."""
+    if isinstance(a, el.XReal) or isinstance(b, el.XReal):
+        a, b = el.X(a if not isinstance(a, SymReal) else a.t), el.X(b if not isinstance(b, SymReal) else b.t)
+        return SymBool(tm.and_(tm.iff(a.nan, b.nan), tm.iff(a.pinf, b.pinf), tm.iff(a.ninf, b.ninf),
+                               tm.implies(tm.and_(a.finite, b.finite), tm.eq(a.val, b.val))))
+    if _sym(a) or _sym(b):
+        return eq(a, b)
+    if isinstance(a, float) and isinstance(b, float) and a != a and b != b:
+        return Rel(True)
+    return eq(a, b, tol)
+
+
+def tensor_same(a, b):
+    ea, eb = elems(a), elems(b)
+    if len(ea) != len(eb) or tuple(a.shape) != tuple(b.shape):
+        return Rel(False, float("inf"), "shape %s vs %s" % (tuple(a.shape), tuple(b.shape)))
+    return all_(*[same(x, y) for x, y in zip(ea, eb)])
+
+
+def finite(x):
+    """not NaN and not infinite"""
+    if isinstance(x, el.XReal):
+        return SymBool(x.finite)
+    if _sym(x):
+        return SymBool(tm.TRUE)
+    return Rel(math.isfinite(x), 1.0, "non-finite %r" % x)
+
+
+def notnan(x):
+    if isinstance(x, el.XReal):
+        return SymBool(tm.not_(x.nan))
+    if _sym(x):
+        return SymBool(tm.TRUE)
+    return Rel(x == x, 1.0, "nan")
